@@ -78,6 +78,12 @@ func (p *pump) write(seq uint16) {
 	_ = h.SetExtension(hk.TwccExtID, []byte{byte(p.tseq >> 8), byte(p.tseq)})
 	_, _ = l.W.Write(&h, pl, nil)
 	p.written += 2
+	if seq%4 == 0 {
+		// the application retransmits on its own now and then: a packet with the stream's RTX SSRC on the stream's
+		// writer (pacers that route by SSRC have no writer for it; whatever they do with it, they do not keep it)
+		hr, plr := hk.Shape(0, l.Info.SSRCRetransmission, seq, uint32(seq)*90)
+		_, _ = l.W.Write(&hr, plr[:20], nil)
+	}
 	// the same sequence number pattern (incl. duplicates and late packets) on the plain stream
 	l2 := p.s.Locals[2]
 	h2, pl2 := hk.Shape(0, l2.Info.SSRC, seq, uint32(seq)*90)
